@@ -147,6 +147,12 @@ def from_c(path):
     one(r"if\(dorev&&\(binnum>binnum_old\)\)\{", "C new-bin test")
     one(r"for\(i=0;i<ndata;i\+\+\)\{", "C loop header")
     _need(len(re.findall(r"while\(tbin<=(binnum|nbin)\)\{", flat)) == 2, "C fill loops")
+    # the loop bounds are the sizes of the arrays, assigned once and never adjusted
+    one(r"ndata=PyArray_SIZE\(sort_pyobj\);", "ndata = PyArray_SIZE(sort_pyobj)")
+    one(r"nbin=PyArray_SIZE\(hist_pyobj\);", "nbin = PyArray_SIZE(hist_pyobj)")
+    _need(len(re.findall(r"ndata(=[^=]|\+=|-=|\+\+|--)", flat)) == 2 and len(re.findall(r"nbin(=[^=]|\+=|-=|\+\+|--)", flat)) == 2,
+          "ndata / nbin assigned exactly once after their declaration")
+    _need(len(re.findall(r"for\(", flat)) == 1 and len(re.findall(r"while\(", flat)) == 2, "exactly one for and two while loops")
     return g
 
 
